@@ -99,6 +99,11 @@ def make_cases(tier_, seed_):
                 for env in spec.get("envs", [{}]):
                     cases.append({"kind": kind, "pos": pos, "existing": existing, "env": env, "out": True})
         cases.append({"kind": kind, "pos": 0, "existing": False, "env": spec.get("envs", [{}])[0], "out": False})  # to stdout
+        if kind in ("undecodable-byte-in-preamble", "generator-raises", "malformed-json", "missing-file"):
+            # the same command line given to a Cli object (parse_args + run) in a process whose own sys.argv does not hold it: the
+            # header is then built from another command line than the one that configures the run
+            for existing in (True, False):
+                cases.append({"kind": kind, "pos": 0, "existing": existing, "env": spec.get("envs", [{}])[0], "out": True, "inproc": True})
     # successful runs: the file must hold the complete text
     for fw in ("base", "pydantic", "attrs", "dataclasses"):
         for existing in (True, False):
@@ -156,6 +161,8 @@ def run_cli(d, argv, case, extra_env=None, strace=False):
         os.remove(log)
     env = child_env(dict(case.get("env") or {}, J2M_VERIF_LOG=log, J2M_VERIF_OUT=target, **(extra_env or {})), with_site=True)
     cmd = [PY, "-m", "json_to_models"] + argv
+    if case.get("inproc"):
+        cmd = [PY, "-c", INPROC, json.dumps(argv)]
     st_out = None
     if strace:
         st_out = os.path.join(d, "strace.txt")
@@ -180,6 +187,18 @@ def run_cli(d, argv, case, extra_env=None, strace=False):
             st = f.read()
     return r, trace, after, st
 
+
+INPROC = """
+import json, sys
+from json_to_models.cli import Cli
+argv = json.loads(sys.argv[1])
+sys.argv = ["json2models", "-m", "Model", "in0.json"]
+cli = Cli()
+cli.parse_args(argv)
+out = cli.run()
+if "-o" not in argv:
+    print(out)
+"""
 
 CODE_RE = re.compile(rb"^\s*class \w+", re.M)
 
